@@ -23,7 +23,11 @@ NMat(e, re)      == [k |-> "match", neg |-> TRUE, e |-> e, re |-> re]
 Call(f, args)    == [k |-> "call", f |-> f, args |-> args]
 Bi(f, args)      == [k |-> "bi", f |-> f, args |-> args]
 
+Re0(re)          == [k |-> "re0", re |-> re]
+Subst(gl, re, repl, lv) == [k |-> "subst", global |-> gl, re |-> re, repl |-> repl, lv |-> lv]
+
 SExpr(e)         == [k |-> "expr", e |-> e]
+SPrintf(args)    == [k |-> "printf", args |-> args]
 SPrint(args)     == [k |-> "print", args |-> args]
 SIf(c, t, f)     == [k |-> "if", c |-> c, t |-> t, f |-> f]
 SWhile(c, b)     == [k |-> "while", c |-> c, b |-> b]
